@@ -635,7 +635,7 @@ Proof.
         rewrite fst_bindM, fst_liftR, <- app_assoc, rd_u32_put by exact Hlen. cbn [of_res fst snd].
         replace (N.of_nat (length (b ++ rest)) <? N.of_nat (length l)) with false by (rewrite app_length; lia).
         replace (tot <? el + N.of_nat (length l)) with false by lia.
-        rewrite fst_tick, Hr by lia. repeat f_equal. lia.
+        rewrite fst_tick, Hr by lia. rewrite N.add_assoc. reflexivity.
   - (* array *)
     cbn [supported] in Hs. apply andb_prop in Hs as [Hn Hs]. apply N.ltb_lt in Hn. specialize (IH Hs). intros v Ht Hf. cbn [wire0].
     destruct v; try discriminate Ht.
@@ -657,3 +657,490 @@ Proof.
     + intros tot rest el Hb. destruct (fields_rt tot fs IH Hs l Ht Hf) as (b' & Hw' & _ & _ & Hr).
       rewrite Hw in Hw'. injection Hw' as <-. rewrite read_struct_eq, fst_tick, fst_bindM, Hr by exact Hb. reflexivity.
 Qed.
+
+(** the type switch of Write and writeReflect produce the same bytes on supported types *)
+Lemma write_eq_wrefl ty v : supported ty = true -> has_typeb ty v = true -> write ty v = wrefl ty v.
+Proof.
+  intros Hs Ht. destruct ty as [b| | | |nm e| | | | | | |]; try discriminate Hs; try reflexivity.
+  - cbn [write]. destruct v; try discriminate Ht; reflexivity.
+  - cbn [write]. destruct nm; [reflexivity|]. destruct e as [b| | | | | | | | | | |]; try reflexivity. destruct b; try reflexivity.
+    destruct v; try discriminate Ht; [reflexivity|].
+    rewrite has_type_slice in Ht. rewrite (wrefl_list_eq (TSlice false (TBasic BU8)) (TBasic BU8)) by auto.
+    destruct (wlist_bytes l Ht) as [-> _]. cbn [obind]. unfold put_lp4. rewrite map_length. reflexivity.
+Qed.
+
+(** a Reader in any state whose element budget still covers the value *)
+Theorem roundtrip_state ty v : supported ty = true -> has_typeb ty v = true -> fits ty v = true ->
+  exists b, write ty v = OOk b /\ cnt ty v <= N.of_nat (length b) /\
+            forall tot rest el, el + cnt ty v <= tot -> fst (read tot ty (b ++ rest, el)) = OOk (norm ty v, (rest, el + cnt ty v)).
+Proof.
+  intros Hs Ht Hf. destruct (roundtrip_refl ty Hs v Ht Hf) as (b & Hw & H0 & Hr).
+  exists b. rewrite write_eq_wrefl by assumption. split; [exact Hw|]. split; [|exact Hr].
+  destruct (wire0 ty); [destruct H0 as (_ & _ & ->); lia|lia].
+Qed.
+(** a fresh Reader over the writer's bytes followed by anything *)
+Theorem roundtrip ty v : supported ty = true -> has_typeb ty v = true -> fits ty v = true ->
+  exists b, write ty v = OOk b /\ forall rest, fst (read0 ty (b ++ rest)) = OOk (norm ty v, (rest, cnt ty v)).
+Proof.
+  intros Hs Ht Hf. destruct (roundtrip_state ty v Hs Ht Hf) as (b & Hw & Hc & Hr). exists b. split; [exact Hw|].
+  intros rest. unfold read0, fresh. rewrite Hr by (rewrite app_length; lia). rewrite N.add_0_l. reflexivity.
+Qed.
+
+(** WriteFrom(a...) / ReadInto(&a...) on one Reader *)
+Definition supported_all (l : list (goty * goval)) : bool :=
+  forallb (fun p => supported (fst p) && has_typeb (fst p) (snd p) && fits (fst p) (snd p)) l.
+Fixpoint cnt_all (l : list (goty * goval)) : N := match l with [] => 0 | p :: r => cnt (fst p) (snd p) + cnt_all r end.
+Lemma roundtrip_list_state l : supported_all l = true ->
+  exists b, write_from l = OOk b /\ cnt_all l <= N.of_nat (length b) /\
+            forall tot rest el, el + cnt_all l <= tot ->
+              fst (read_into tot (map fst l) (b ++ rest, el)) = OOk (map (fun p => norm (fst p) (snd p)) l, (rest, el + cnt_all l)).
+Proof.
+  induction l as [|[t v] r IH]; cbn [supported_all forallb]; intros H.
+  - exists []. split; [reflexivity|]. split; [cbn; lia|]. intros tot rest el _. cbn [cnt_all]. rewrite N.add_0_r. reflexivity.
+  - apply andb_prop in H as [H Hr]. apply andb_prop in H as [H Hf]. apply andb_prop in H as [Hs Ht]. cbn [fst snd] in *.
+    destruct (roundtrip_state t v Hs Ht Hf) as (b1 & Hw1 & Hc1 & Hr1). destruct (IH Hr) as (b2 & Hw2 & Hc2 & Hr2).
+    exists (b1 ++ b2). cbn [write_from map fst snd cnt_all]. rewrite Hw1. cbn [obind]. rewrite Hw2. cbn [obind]. split; [reflexivity|].
+    split; [rewrite app_length; lia|].
+    intros tot rest el Hb. cbn [read_into]. rewrite fst_bindM, <- app_assoc, Hr1 by lia. rewrite fst_bindM. cbn [fst snd].
+    rewrite Hr2 by lia. cbn [ret fst snd]. rewrite N.add_assoc. reflexivity.
+Qed.
+Theorem roundtrip_list l : supported_all l = true ->
+  exists b, write_from l = OOk b /\
+            forall rest, fst (read_into0 (map fst l) (b ++ rest)) = OOk (map (fun p => norm (fst p) (snd p)) l, (rest, cnt_all l)).
+Proof.
+  intros H. destruct (roundtrip_list_state l H) as (b & Hw & Hc & Hr). exists b. split; [exact Hw|].
+  intros rest. unfold read_into0, fresh. rewrite Hr by (rewrite app_length; lia). rewrite N.add_0_l. reflexivity.
+Qed.
+
+(** when the decoded value is the value itself: no nil slice, no unexported field *)
+Fixpoint canonical (ty : goty) (v : goval) {struct v} : bool :=
+  match v with
+  | VNil => false
+  | VList l =>
+      match ty with
+      | TSlice _ e | TArray _ e => (fix all (l : list goval) : bool := match l with [] => true | x :: r => canonical e x && all r end) l
+      | _ => true
+      end
+  | VStruct l =>
+      match ty with
+      | TStruct fs =>
+          (fix all (fs : list (bool * goty)) (l : list goval) {struct l} : bool :=
+             match fs, l with
+             | [], [] => true
+             | (ex, t) :: fr, x :: r => ex && canonical t x && all fr r
+             | _, _ => false
+             end) fs l
+      | _ => true
+      end
+  | _ => true
+  end.
+Definition canonical_list (e : goty) : list goval -> bool :=
+  fix all (l : list goval) : bool := match l with [] => true | x :: r => canonical e x && all r end.
+Fixpoint canonical_fields (fs : list (bool * goty)) (l : list goval) {struct l} : bool :=
+  match fs, l with
+  | [], [] => true
+  | (ex, t) :: fr, x :: r => ex && canonical t x && canonical_fields fr r
+  | _, _ => false
+  end.
+Lemma norm_canonical v : forall ty, canonical ty v = true -> norm ty v = v.
+Proof.
+  induction v as [n|z|b|s| |l IH|l IH|x IH|t x IH| ] using goval_ind'; intros ty Hc; try reflexivity; try discriminate Hc.
+  - assert (G : forall e, canonical_list e l = true -> norm_list e l = l).
+    { clear Hc. intros e. induction IH as [|x r Hx Hr IH2]; [reflexivity|]. intros H.
+      change (canonical_list e (x :: r)) with (canonical e x && canonical_list e r) in H. apply andb_prop in H as [H1 H2].
+      rewrite norm_list_cons. f_equal; [apply Hx; exact H1|apply IH2; exact H2]. }
+    destruct ty as [| | | |nm e|n e| | | | | |]; try reflexivity.
+    + rewrite norm_slice. f_equal. apply G. exact Hc.
+    + rewrite norm_array. f_equal. apply G. exact Hc.
+  - destruct ty as [| | | | | |fs| | | | |]; try reflexivity.
+    rewrite norm_struct. f_equal. change (canonical_fields fs l = true) in Hc. revert fs Hc.
+    induction IH as [|x r Hx Hr IH2]; intros fs Hc; destruct fs as [|[ex t] fr]; try discriminate Hc; [reflexivity|].
+    cbn [canonical_fields] in Hc. apply andb_prop in Hc as [Hc H3]. apply andb_prop in Hc as [H1 H2]. subst ex.
+    cbn [norm_fields]. f_equal; [apply Hx; exact H2|apply IH2; exact H3].
+Qed.
+
+(** * values excluded from the round trip *)
+Lemma be_mod k n : be k (n mod 256 ^ N.of_nat k) = be k n.
+Proof.
+  revert n. induction k as [|k IH]; intros n; cbn [be]; [reflexivity|].
+  assert (Hp : 256 ^ N.of_nat (S k) = 256 * 256 ^ N.of_nat k) by (rewrite Nat2N.inj_succ, N.pow_succ_r'; reflexivity).
+  rewrite Hp. assert (0 < 256 ^ N.of_nat k) by (apply N.neq_0_lt_0, N.pow_nonzero; lia).
+  set (P := 256 ^ N.of_nat k) in *.
+  assert (Ha : n mod 256 < 256) by (apply N.mod_lt; lia).
+  assert (E1 : n mod (256 * P) / 256 = (n / 256) mod P).
+  { rewrite N.mod_mul_r by lia. symmetry. apply N.div_unique with (n mod 256); lia. }
+  assert (E2 : (n mod (256 * P)) mod 256 = n mod 256).
+  { rewrite N.mod_mul_r by lia. symmetry. apply N.mod_unique with ((n / 256) mod P); lia. }
+  rewrite E1, E2, IH. reflexivity.
+Qed.
+Lemma put_u32_mod n : put_u32 (n mod 4294967296) = put_u32 n.
+Proof. exact (be_mod 4 n). Qed.
+
+(** slices and arrays: the length prefix is uint32(len): 2^32 or more elements are announced modulo 2^32 *)
+Lemma wrefl_length_wraps nm e l :
+  wrefl (TSlice nm e) (VList l) = obind (wlist e l) (fun b => OOk (put_u32 (N.of_nat (length l) mod 4294967296) ++ b)).
+Proof. rewrite (wrefl_list_eq (TSlice nm e) e) by (destruct nm; auto). rewrite put_u32_mod. reflexivity. Qed.
+
+(** strings (and []byte) of 2^32 bytes or more never read back *)
+Lemma string_too_long s rest : 4294967296 <= N.of_nat (length s) -> rd_string (put_string s ++ rest) <> Ok (s, rest).
+Proof.
+  intros Hl H. unfold rd_string, put_string in H. rewrite put_lp4_wraps in H. unfold rd_lp4 in H.
+  rewrite <- app_assoc, rd_u32_put in H by (apply N.mod_lt; lia). cbn [bind] in H.
+  apply take_N_suffix in H as [_ H]. assert (N.of_nat (length s) mod 4294967296 < 4294967296) by (apply N.mod_lt; lia). lia.
+Qed.
+
+(** an array type of 2^32 or more elements can be written but never read *)
+Lemma unbe_acc_lt bs : forall acc, wf_bytes bs = true -> unbe_acc acc bs < (acc + 1) * 256 ^ N.of_nat (length bs).
+Proof.
+  induction bs as [|b r IH]; intros acc Hwf; cbn [unbe_acc length].
+  - change (256 ^ N.of_nat 0) with 1. lia.
+  - cbn [wf_bytes forallb] in Hwf. apply andb_prop in Hwf as [Hb Hwf]. unfold wf_byte in Hb.
+    specialize (IH (acc * 256 + b) Hwf).
+    assert (Hp : 256 ^ N.of_nat (S (length r)) = 256 * 256 ^ N.of_nat (length r)) by (rewrite Nat2N.inj_succ, N.pow_succ_r'; reflexivity).
+    rewrite Hp. assert (0 < 256 ^ N.of_nat (length r)) by (apply N.neq_0_lt_0, N.pow_nonzero; lia). nia.
+Qed.
+Lemma wf_bytes_firstn k bs : wf_bytes bs = true -> wf_bytes (firstn k bs) = true.
+Proof.
+  revert k; induction bs as [|b r IH]; intros k H; destruct k; try reflexivity.
+  cbn [firstn wf_bytes forallb] in *. apply andb_prop in H as [H1 H2]. rewrite H1. cbn [andb]. apply IH. exact H2.
+Qed.
+Lemma rd_u32_lt bs m t : wf_bytes bs = true -> rd_u32 bs = Ok (m, t) -> m < 4294967296.
+Proof.
+  intros Hwf H. unfold rd_u32, rd_uint, take_n in H. destruct (Nat.leb_spec 4 (length bs)); [|discriminate H].
+  cbn [bind] in H. injection H as <- _. unfold unbe.
+  pose proof (unbe_acc_lt (firstn 4 bs) 0 (wf_bytes_firstn 4 bs Hwf)) as G.
+  rewrite firstn_length_le in G by assumption. change (256 ^ N.of_nat 4) with 4294967296 in G.
+  change (unbe_acc 0 (firstn 4 bs) < 4294967296). lia.
+Qed.
+Lemma array_too_long tot n e st : 4294967296 <= n -> wf_bytes (fst st) = true -> forall v r, fst (read tot (TArray n e) st) <> OOk (v, r).
+Proof.
+  intros Hn Hwf v r. cbn [read]. rewrite fst_tick, fst_bindM, fst_liftR.
+  destruct (rd_u32 (fst st)) as [[m t]|e'] eqn:E; cbn [of_res]; [|discriminate].
+  apply rd_u32_lt in E; [|exact Hwf]. cbn [fst snd]. replace (m =? n) with false by lia. discriminate.
+Qed.
+
+(** * C13 (b): allocation and work *)
+(** what a Reader state can still pay with: remaining input bytes + remaining element budget *)
+Definition res (tot : N) (st : rst) : N := N.of_nat (length (fst st)) + (tot - snd st).
+Definition remS {A} (tot : N) (o : out (A * rst)) : N := match o with OOk (_, st) => res tot st | _ => 0 end.
+(** bytes requested from the allocator + loop iterations *)
+Definition work {A} (m : M A) : N := fst (snd m) + snd (snd m).
+(** "work + a * (what remains) <= a * (what was available) + K" *)
+Definition cw {A} (tot : N) (m : M (A * rst)) (a L K : N) : Prop :=
+  work m + a * remS tot (fst m) <= a * L + K /\ remS tot (fst m) <= L.
+
+Lemma cw_weaken {A} tot (m : M (A * rst)) a L K a' K' : cw tot m a L K -> a <= a' -> K <= K' -> cw tot m a' L K'.
+Proof.
+  unfold cw. intros [H1 H2] Ha HK. split; [|exact H2].
+  replace a' with (a + (a' - a)) by lia. set (d := a' - a).
+  assert (d * remS tot (fst m) <= d * L) by (apply N.mul_le_mono_l; exact H2). nia.
+Qed.
+Lemma work_bindM {A B} (m : M A) (f : A -> M B) :
+  work (bindM m f) = match fst m with OOk a => work m + work (f a) | _ => work m end.
+Proof. unfold work. rewrite snd_bindM. destruct (fst m); try reflexivity. unfold cadd. cbn [fst snd]. lia. Qed.
+Lemma work_tick {A} c (m : M A) : work (tick c m) = fst c + snd c + work m.
+Proof. unfold work. rewrite snd_tick. unfold cadd. cbn [fst snd]. lia. Qed.
+
+Lemma cw_bind {A B} tot (m : M (A * rst)) (f : A * rst -> M (B * rst)) a L K1 K2 :
+  cw tot m a L K1 -> (forall x st, fst m = OOk (x, st) -> cw tot (f (x, st)) a (res tot st) K2) ->
+  cw tot (bindM m f) a L (K1 + K2).
+Proof.
+  unfold cw. intros [H1 H2] Hf. rewrite fst_bindM, work_bindM.
+  destruct (fst m) as [[x st]| | | |] eqn:E; cbn [remS] in *; try lia.
+  destruct (Hf x st eq_refl) as [G1 G2]. split; lia.
+Qed.
+Lemma cw_tick {A} tot (m : M (A * rst)) c a L K : cw tot m a L K -> cw tot (tick c m) a L (fst c + snd c + K).
+Proof. unfold cw. rewrite fst_tick, work_tick. lia. Qed.
+Lemma cw_ret {A} tot (x : A) st a L K : res tot st <= L -> cw tot (ret (x, st)) a L K.
+Proof. unfold cw, work, ret. cbn [fst snd remS]. nia. Qed.
+Lemma cw_fail {A} tot e a L K : cw tot (@failM (A * rst) e) a L K.
+Proof. unfold cw, work, failM. cbn [fst snd remS]. lia. Qed.
+
+(** byte-level readers lifted to the state *)
+Definition remB {A} (o : out (A * bytes)) : N := match o with OOk (_, r) => N.of_nat (length r) | _ => 0 end.
+Lemma cw_with_el {A} tot el (m : M (A * bytes)) a bs K :
+  work m + a * remB (fst m) <= a * N.of_nat (length bs) + K -> remB (fst m) <= N.of_nat (length bs) ->
+  cw tot (with_el el m) a (res tot (bs, el)) K.
+Proof.
+  intros H1 H2. unfold cw, with_el, res. rewrite fst_bindM, work_bindM. cbn [fst snd].
+  destruct (fst m) as [[x r]| | | |]; cbn [remB remS ret fst snd] in *; unfold work, ret, res in *; cbn [fst snd] in *; nia.
+Qed.
+
+Lemma cwb_rprim b bs : work (rprim b bs) + 2 * remB (fst (rprim b bs)) <= 2 * N.of_nat (length bs) + 0
+                       /\ remB (fst (rprim b bs)) <= N.of_nat (length bs).
+Proof.
+  destruct b; unfold rprim, rd_u8, rd_u16, rd_u32, rd_u64, rd_f32, rd_f64, rd_u32, rd_u64, rd_i8, rd_i16, rd_i32, rd_i64, rd_bool, rd_u8, rd_u16, rd_u32, rd_u64.
+  1-11: unfold work, liftR; cbn [fst snd];
+        match goal with |- context [rd_uint ?k ?x] => destruct (rd_uint k x) as [[n t]|e] eqn:E end; cbn [bind of_res remB]; try lia;
+        destruct (rd_uint_suffix _ _ _ _ E) as (h & -> & _); rewrite app_length; lia.
+  rewrite fst_bindM, work_bindM, fst_liftR. unfold rd_string.
+  destruct (rd_lp4_good bs) as [(s & r & h & -> & -> & Hl & Hs)|[e ->]]; cbn [of_res remB]; unfold work, liftR, ret, tick, cadd; cbn [fst snd remB]; [|lia].
+  rewrite !app_length. lia.
+Qed.
+
+Lemma cw_u32_bind {B} tot bs el (f : N * bytes -> M (B * rst)) a K :
+  (forall n t, rd_u32 bs = Ok (n, t) -> cw tot (f (n, t)) a (res tot (t, el)) K) ->
+  cw tot (bindM (liftR (rd_u32 bs)) f) a (res tot (bs, el)) K.
+Proof.
+  intros Hf. unfold cw. rewrite fst_bindM, work_bindM, fst_liftR.
+  destruct (rd_u32 bs) as [[n t]|e] eqn:E; cbn [of_res]; [|unfold work, liftR; cbn [fst snd remS of_res]; lia].
+  destruct (Hf n t eq_refl) as [G1 G2].
+  assert (Hl : res tot (t, el) <= res tot (bs, el)).
+  { unfold rd_u32 in E. destruct (rd_uint_suffix _ _ _ _ E) as (h & -> & _). unfold res. cbn [fst snd]. rewrite app_length. lia. }
+  unfold work at 1. unfold liftR. cbn [fst snd]. split; [nia|lia].
+Qed.
+
+(** the element loop: each element costs at most [a] per unit of resource it uses up plus [K], and uses up at
+    least one unit when it succeeds; so the whole loop costs at most [a + K + 1] per unit, whatever [n] is *)
+Lemma cw_elems tot rd a K : rd_good true rd -> (forall st, cw tot (rd st) a (res tot st) K) ->
+  forall fuel n st, cw tot (rd_elems rd fuel n st) (a + K + 1) (res tot st) K.
+Proof.
+  intros Hg Hrd. induction fuel as [|f IH]; intros n st; cbn [rd_elems]; destruct (N.eqb_spec n 0) as [->|Hn].
+  - apply cw_ret; lia.
+  - unfold cw, work; cbn [fst snd remS]; lia.
+  - apply cw_ret; lia.
+  - specialize (Hrd st). destruct Hrd as [H1 H2].
+    destruct (fst (rd st)) as [[v st1]| | | |] eqn:E.
+    2-5: unfold cw; rewrite fst_bindM, work_bindM, E; cbn [remS] in *; nia.
+    cbn [remS] in H1, H2.
+    assert (Hprog : res tot st1 + 1 <= res tot st).
+    { destruct (Hg st) as [(v' & st' & h & E' & Eb & Hh & Hel)|[e E']]; [|rewrite E in E'; discriminate].
+      rewrite E in E'. injection E' as <- <-. unfold res. rewrite Eb, app_length.
+      destruct h; [exfalso; apply Hh; reflexivity|cbn [length]; lia]. }
+    destruct (IH (n - 1) st1) as [G1 G2].
+    unfold cw. rewrite fst_bindM, work_bindM, E. cbn [fst snd]. rewrite fst_tick, work_tick, fst_bindM, work_bindM.
+    destruct (fst (rd_elems rd f (n - 1) st1)) as [[vs st2]| | | |] eqn:E2; cbn [remS fst snd] in *;
+      unfold work, ret in *; cbn [fst snd remS] in *; nia.
+Qed.
+
+(** constants: [kA] per unit of resource, [kK] fixed by the type *)
+Lemma cw_fields tot fs :
+  Forall (fun p => forall st, cw tot (read tot (snd p) st) (kA (snd p)) (res tot st) (kK (snd p))) fs ->
+  forall st, cw tot (rfields tot fs st) (kA_fields fs) (res tot st) (kK_fields fs).
+Proof.
+  induction 1 as [|[ex t] r Hx Hr IH]; intros st.
+  - rewrite rfields_nil. apply cw_ret. lia.
+  - rewrite rfields_cons. cbn [kK_fields kA_fields]. cbn [snd] in Hx. destruct ex.
+    + replace (kK t + kK_fields r) with (kK t + (kK_fields r + 0)) by lia.
+      apply cw_bind; [eapply cw_weaken; [apply Hx|lia|lia]|]. intros x st1 _.
+      apply cw_bind; [eapply cw_weaken; [apply IH|lia|lia]|]. intros q st2 _. cbn [fst snd]. apply cw_ret. lia.
+    + replace (0 + kK_fields r) with (kK_fields r + 0) by lia.
+      apply cw_bind; [eapply cw_weaken; [apply IH|lia|lia]|]. intros q st2 _. cbn [fst snd]. apply cw_ret. lia.
+Qed.
+
+(** the slice case after its two checks: the n elements were charged to the element budget, which pays for
+    MakeSlice and, for elements without wire bytes, for the n iterations *)
+Lemma cw_slice_body tot rd a K n sz t el : rd_good true rd -> (forall st, cw tot (rd st) a (res tot st) K) -> el + n <= tot ->
+  cw tot (tick (n * sz, 0) (bindM (rd_elems rd (S (length t)) n (t, el + n)) (fun q => ret (VList (fst q), snd q))))
+     (sz + (a + K + 1)) (res tot (t, el)) K.
+Proof.
+  intros Hg Hrd Hb. destruct (cw_elems tot rd a K Hg Hrd (S (length t)) n (t, el + n)) as [G1 G2].
+  assert (HR : res tot (t, el + n) + n = res tot (t, el)) by (unfold res; cbn [fst snd]; lia).
+  unfold cw. rewrite fst_tick, work_tick, fst_bindM, work_bindM. cbn [fst snd].
+  destruct (fst (rd_elems rd (S (length t)) n (t, el + n))) as [[vs st']| | | |] eqn:E; cbn [remS fst snd ret] in *;
+    unfold work, ret in *; cbn [fst snd remS] in *; nia.
+Qed.
+
+Theorem cost_linear tot ty : forall st, cw tot (read tot ty st) (kA ty) (res tot st) (kK ty).
+Proof.
+  induction ty as [b|b| | |nm e IH|n e IH|fs IH|e IH| | | |] using goty_ind'; intros [bs el];
+    try (apply cw_fail).
+  - cbn [read fst snd kA kK]. destruct (cwb_rprim b bs). apply cw_with_el; assumption.
+  - (* slice *)
+    cbn [read kA kK fst snd].
+    destruct (negb nm && match e with TBasic BU8 => true | _ => false end).
+    + eapply cw_weaken; [apply (cw_with_el tot el _ 2 bs 0)| lia | lia].
+      * rewrite fst_bindM, work_bindM, fst_liftR.
+        destruct (rd_lp4_good bs) as [(s & r & h & -> & -> & Hl & Hsl)|[e' ->]]; cbn [of_res remB]; unfold work, liftR, ret, tick, cadd; cbn [fst snd remB]; [|lia].
+        rewrite !app_length. lia.
+      * rewrite fst_bindM, fst_liftR.
+        destruct (rd_lp4_good bs) as [(s & r & h & -> & -> & Hl & Hsl)|[e' ->]]; cbn [of_res remB]; [|lia].
+        rewrite fst_tick. cbn [ret fst snd remB]. rewrite app_length. lia.
+    + apply cw_u32_bind. intros n t _. cbn [fst snd].
+      destruct (N.ltb_spec (N.of_nat (length t)) n); [apply cw_fail|].
+      destruct (N.ltb_spec tot (el + n)); [apply cw_fail|].
+      destruct (wire0 e) eqn:W.
+      * unfold cw. rewrite fst_tick, work_tick. unfold work, res. cbn [fst snd remS]. unfold res. cbn [fst snd]. nia.
+      * eapply cw_weaken; [apply (cw_slice_body tot (read tot e) (kA e) (kK e) n (tsize e) t el)|lia|lia]; auto.
+        pose proof (read_good tot e) as G. rewrite W in G. exact G.
+  - (* array *)
+    cbn [read kA kK fst snd].
+    replace (n * tsize e + n + kK e + 1) with (n * tsize e + 0 + (n + kK e + 1)) by lia.
+    apply (cw_tick tot _ (n * tsize e, 0)). apply cw_u32_bind. intros m t _. cbn [fst snd].
+    destruct (negb (m =? n)); [apply cw_fail|].
+    destruct (wire0 e) eqn:W.
+    + unfold cw, work, res. cbn [fst snd remS]. unfold res. cbn [fst snd]. nia.
+    + replace (n + kK e + 1) with (kK e + (n + 1)) by lia.
+      apply cw_bind.
+      * pose proof (read_good tot e) as G. rewrite W in G. apply (cw_elems tot (read tot e) (kA e) (kK e) G IH).
+      * intros vs st' _. cbn [fst snd]. apply cw_ret. lia.
+  - (* struct *)
+    rewrite read_struct_eq, kK_struct, kA_struct, tsize_struct.
+    replace (tsize_fields fs + kK_fields fs) with (tsize_fields fs + 0 + (kK_fields fs + 0)) by lia.
+    apply (cw_tick tot _ (tsize_fields fs, 0)). apply cw_bind; [apply cw_fields; assumption|]. intros q st' _. cbn [fst snd]. apply cw_ret. lia.
+Qed.
+
+(** a fresh Reader: everything it may spend is twice the input length *)
+Corollary work_linear ty bs : work (read0 ty bs) <= 2 * kA ty * N.of_nat (length bs) + kK ty.
+Proof.
+  unfold read0. destruct (cost_linear (N.of_nat (length bs)) ty (fresh bs)) as [G _].
+  unfold res, fresh in *. cbn [fst snd] in G.
+  set (w := work (read (N.of_nat (length bs)) ty (bs, 0))) in *.
+  set (r := remS (N.of_nat (length bs)) (fst (read (N.of_nat (length bs)) ty (bs, 0)))) in *. nia.
+Qed.
+
+(** arrays: the loop count and the temporary come from the TYPE; the wire only has to agree *)
+Lemma array_cost tot n e st : fst (snd (read tot (TArray n e) st)) >= n * tsize e /\
+  (forall m t, rd_u32 (fst st) = Ok (m, t) -> m <> n -> read tot (TArray n e) st = (OErr EInvalid, (n * tsize e, 0))).
+Proof.
+  split.
+  - cbn [read]. rewrite snd_tick. unfold cadd. cbn [fst]. lia.
+  - intros m t E Hm. cbn [read]. unfold tick, bindM, liftR. rewrite E. cbn [of_res fst snd].
+    replace (m =? n) with false by lia. cbn [negb failM fst snd]. unfold cadd, tick, failM, cadd. cbn [fst snd]. rewrite !N.add_0_r. reflexivity.
+Qed.
+
+(** * C13 (c): the caller's variables *)
+Lemma read_var_fail tot old ty st : (forall r, snd (read_var tot old ty st) <> OOk r) -> fst (read_var tot old ty st) = old.
+Proof.
+  unfold read_var. destruct (fst (read tot ty st)) as [[v t]| | | |]; cbn [fst snd]; auto. intros H. exfalso. apply (H t). reflexivity.
+Qed.
+Lemma read_var_ok tot old ty st r : snd (read_var tot old ty st) = OOk r -> fst (read tot ty st) = OOk (fst (read_var tot old ty st), r).
+Proof.
+  unfold read_var. destruct (fst (read tot ty st)) as [[v t]| | | |]; cbn [fst snd]; try discriminate. intros H; injection H as <-. reflexivity.
+Qed.
+
+Lemma read_into_vars_spec tot olds : forall st vs o, read_into_vars tot olds st = (vs, o) ->
+  (forall r, o = OOk r -> fst (read_into tot (map fst olds) st) = OOk (vs, r)) /\
+  ((forall r, o <> OOk r) ->
+     exists pre post dec rest, olds = pre ++ post /\ post <> [] /\
+       fst (read_into tot (map fst pre) st) = OOk (dec, rest) /\ vs = dec ++ map snd post /\
+       (forall r, fst (read tot (fst (hd (TInt, VNil) post)) rest) <> OOk r)).
+Proof.
+  induction olds as [|[t old] r IH]; intros st vs o; cbn [read_into_vars].
+  - intros H; injection H as <- <-. split.
+    + intros r0 H; injection H as <-. reflexivity.
+    + intros H. exfalso. apply (H st). reflexivity.
+  - unfold read_var. destruct (fst (read tot t st)) as [[v rest]|e|w| |] eqn:E.
+    + destruct (read_into_vars tot r rest) as [vs' o'] eqn:E2. intros H; injection H as <- <-.
+      destruct (IH rest vs' o' E2) as [I1 I2]. split.
+      * intros r0 ->. cbn [map fst read_into]. rewrite fst_bindM, E, fst_bindM. cbn [fst snd]. rewrite (I1 r0 eq_refl). reflexivity.
+      * intros Hn. destruct (I2 Hn) as (pre & post & dec & rest' & -> & Hp & Hd & -> & Hf).
+        exists ((t, old) :: pre), post, (v :: dec), rest'. repeat split; auto.
+        cbn [map fst read_into]. rewrite fst_bindM, E, fst_bindM. cbn [fst snd]. rewrite Hd. reflexivity.
+    + intros H; injection H as <- <-. split; [discriminate|]. intros _.
+      exists [], ((t, old) :: r), [], st. repeat split; auto; try discriminate. cbn [hd fst]. rewrite E. discriminate.
+    + intros H; injection H as <- <-. split; [discriminate|]. intros _.
+      exists [], ((t, old) :: r), [], st. repeat split; auto; try discriminate. cbn [hd fst]. rewrite E. discriminate.
+    + intros H; injection H as <- <-. split; [discriminate|]. intros _.
+      exists [], ((t, old) :: r), [], st. repeat split; auto; try discriminate. cbn [hd fst]. rewrite E. discriminate.
+    + intros H; injection H as <- <-. split; [discriminate|]. intros _.
+      exists [], ((t, old) :: r), [], st. repeat split; auto; try discriminate. cbn [hd fst]. rewrite E. discriminate.
+Qed.
+
+(** * witnesses (closed computations) *)
+Definition ex_ty : goty :=
+  TStruct [(true, TBasic BI16); (false, TPtr TInt); (true, TSlice false (TStruct [(true, TBasic BStr); (true, TArray 2 (TBasic BF32))]));
+           (true, TSlice false (TBasic BU8)); (true, TSlice true (TBasic BU8)); (true, TArray 2 (TStruct [])); (true, TSlice false (TStruct []))].
+Definition ex_val : goval :=
+  VStruct [VZ (-2); VNil;
+           VList [VStruct [VS [104; 105]; VList [VN 2143289344; VN 2147483648]]; VStruct [VS []; VList [VN 0; VN 1]]];
+           VList [VN 1; VN 255]; VNil; VList [VStruct []; VStruct []]; VList []].
+Lemma ex_ok : supported ex_ty = true /\ has_typeb ex_ty ex_val = true /\ fits ex_ty ex_val = true /\ norm ex_ty ex_val <> ex_val.
+Proof. repeat split; try (vm_compute; reflexivity). vm_compute. discriminate. Qed.
+
+Lemma w_nil_slice : exists ty v b v', supported ty = true /\ has_typeb ty v = true /\ fits ty v = true /\
+  write ty v = OOk b /\ fst (read0 ty b) = OOk (v', ([], cnt ty v)) /\ v = VNil /\ v' = VList [].
+Proof. exists (TSlice false (TBasic BI32)), VNil, [0; 0; 0; 0], (VList []). repeat split. Qed.
+
+Lemma w_unexported : exists ty v b v', supported ty = true /\ has_typeb ty v = true /\ fits ty v = true /\
+  write ty v = OOk b /\ fst (read0 ty b) = OOk (v', ([], cnt ty v)) /\ v = VStruct [VZ 5; VN 1] /\ v' = VStruct [VZ 0; VN 1].
+Proof. exists (TStruct [(false, TBasic BI8); (true, TBasic BU8)]), (VStruct [VZ 5; VN 1]), [1], (VStruct [VZ 0; VN 1]). repeat split. Qed.
+
+(** a non-empty slice of elements that occupy no bytes: written as its length only; the reader rejects a length
+    above the number of remaining bytes, so it reads back only if enough unrelated bytes follow *)
+Lemma w_wire0_slice : exists ty v b, supported ty = true /\ has_typeb ty v = true /\ fits ty v = false /\
+  write ty v = OOk b /\ fst (read0 ty b) = OErr EEOF /\ fst (read0 ty (b ++ [9])) = OOk (v, ([9], 1))
+  /\ ty = TSlice false (TStruct []) /\ v = VList [VStruct []].
+Proof. exists (TSlice false (TStruct [])), (VList [VStruct []]), [0; 0; 0; 1]. repeat split. Qed.
+
+Lemma w_pointer_field : exists ty v b, has_typeb ty v = true /\ write ty v = OOk b /\ fst (read0 ty b) = OErr EUnsupported
+  /\ ty = TStruct [(true, TPtr (TBasic BI8))] /\ v = VStruct [VPtr (VZ 5)].
+Proof. exists (TStruct [(true, TPtr (TBasic BI8))]), (VStruct [VPtr (VZ 5)]), [5]. repeat split. Qed.
+
+Lemma w_nil_pointer_field : exists ty v, has_typeb ty v = true /\ write ty v = OErr EInvalid
+  /\ ty = TStruct [(true, TBasic BU8); (true, TPtr (TBasic BI8))] /\ v = VStruct [VN 1; VNil].
+Proof. exists (TStruct [(true, TBasic BU8); (true, TPtr (TBasic BI8))]), (VStruct [VN 1; VNil]). repeat split. Qed.
+
+Lemma w_iface_field : exists ty v b, has_typeb ty v = true /\ write ty v = OOk b /\ fst (read0 ty b) = OErr EUnsupported
+  /\ ty = TStruct [(true, TIface)] /\ v = VStruct [VIface (TBasic BI32) (VZ 3)].
+Proof. exists (TStruct [(true, TIface)]), (VStruct [VIface (TBasic BI32) (VZ 3)]), [0; 0; 0; 3]. repeat split. Qed.
+
+Lemma w_ptr_iface : write (TPtr TIface) (VPtr (VIface (TBasic BI32) (VZ 5))) = OOk [0; 0; 0; 5]
+  /\ write (TPtr TIface) (VPtr (VIface (TStruct []) (VStruct []))) = OErr EUnsupported
+  /\ write (TStruct [(true, TIface)]) (VStruct [VIface (TStruct []) (VStruct [])]) = OOk [].
+Proof. repeat split. Qed.
+
+Lemma unsupported_kinds :
+  (forall b v, basic_ok b v = true -> write (TNamed b) v = OErr EUnsupported /\ forall tot st, fst (read tot (TNamed b) st) = OErr EUnsupported) /\
+  (forall z, write TInt (VZ z) = OErr EUnsupported /\ forall tot st, fst (read tot TInt st) = OErr EUnsupported) /\
+  (forall n, write TUint (VN n) = OErr EUnsupported /\ forall tot st, fst (read tot TUint st) = OErr EUnsupported) /\
+  (forall v, v = VNil \/ v = VOpaque -> write TMap v = OErr EUnsupported /\ write TChan v = OErr EUnsupported /\ write TFunc v = OErr EUnsupported) /\
+  write TIface VNil = OErr EUnsupported /\
+  (forall t, t <> TSlice false (TBasic BU8) -> write (TPtr t) VNil = OErr EInvalid) /\
+  write (TPtr (TSlice false (TBasic BU8))) VNil = OOk [0; 0; 0; 0] /\
+  (forall t tot st, fst (read tot (TPtr t) st) = OErr EUnsupported) /\ (forall tot st, fst (read tot TIface st) = OErr EUnsupported).
+Proof.
+  split; [intros b v H; split; [destruct b, v; try discriminate H; reflexivity|reflexivity]|].
+  split; [intros z; split; reflexivity|].
+  split; [intros n; split; reflexivity|].
+  split; [intros v [-> | ->]; repeat split; reflexivity|].
+  split; [reflexivity|].
+  split; [|repeat split; reflexivity].
+  intros t H0. destruct t as [b| | | |nm e| | | | | | |]; try reflexivity.
+  destruct nm; try reflexivity. destruct e as [b| | | | | | | | | | |]; try reflexivity. destruct b; try reflexivity.
+  exfalso. apply H0. reflexivity.
+Qed.
+
+(** nil targets of Read: an error whatever the pointer type, nothing is read *)
+Lemma read_nil_target ty bs : read_call (TgtNilPtr ty) bs = OErr EInvalid /\ read_call TgtNonPtr bs = OErr EInvalid.
+Proof. split; reflexivity. Qed.
+
+(** a hostile length prefix: rejected before anything is allocated *)
+Lemma w_hostile_length :
+  read0 (TSlice false (TBasic BU64)) [255; 255; 255; 255] = (OErr EEOF, (0, 0))
+  /\ read0 (TSlice false (TStruct [])) [255; 255; 255; 255] = (OErr EEOF, (0, 0))
+  /\ read0 (TSlice true (TBasic BU8)) [255; 255; 255; 255; 1; 2] = (OErr EEOF, (0, 0)).
+Proof. repeat split. Qed.
+
+(** slices of elements that occupy no bytes, nested in a slice: every inner slice announces as many elements as
+    bytes remain; the Reader's element budget (at most len(buf) slice elements in total) stops it at the second
+    inner slice: 804 input bytes, 1 iteration of the outer loop *)
+Fixpoint bomb_tail (k : nat) : bytes := match k with O => [] | S j => put_u32 (4 * N.of_nat j) ++ bomb_tail j end.
+Definition bomb (k : nat) : bytes := put_u32 (N.of_nat k) ++ bomb_tail k.
+Lemma w_nested_wire0 :
+  length (bomb 200) = 804%nat
+  /\ read0 (TSlice false (TSlice false (TStruct []))) (bomb 200) = (OErr EEOF, (4800, 0))
+  /\ read0 (TSlice false (TSlice false (TStruct [(false, TBasic BU64)]))) (bomb 200) = (OErr EEOF, (4800, 0)).
+Proof. repeat split; vm_compute; reflexivity. Qed.
+(** within the budget nested zero-size slices decode, and a value that exceeds it is an excluded value of C12:
+    [][]struct{} with 2 inner slices of 3 elements needs 2 + 3 + 3 = 8 elements but is only 12 bytes long *)
+Lemma w_budget :
+  let ty := TSlice false (TSlice false (TStruct [])) in
+  let v := VList [VList [VStruct []; VStruct []; VStruct []]; VList [VStruct []; VStruct []; VStruct []]] in
+  write ty v = OOk [0; 0; 0; 2; 0; 0; 0; 3; 0; 0; 0; 3]
+  /\ fst (read0 ty [0; 0; 0; 2; 0; 0; 0; 3; 0; 0; 0; 3]) = OErr EEOF
+  /\ fst (read0 ty [0; 0; 0; 2; 0; 0; 0; 3; 0; 0; 0; 3; 7; 7; 7]) = OOk (v, ([7; 7; 7], 8))
+  /\ fits ty v = false /\ cnt ty v = 8.
+Proof. repeat split. Qed.
+
+Lemma w_read_into_clobber :
+  read_into_vars0 [(TBasic BU8, VN 9); (TBasic BU8, VN 9)] [1] = ([VN 1; VN 9], OErr EEOF).
+Proof. reflexivity. Qed.
+
+(** the reader accepts encodings the writer never produces *)
+Lemma w_noncanonical : fst (read0 (TBasic BBool) [2]) = OOk (VB true, ([], 0)) /\ rd_uvarint [128; 0] = Ok (0, []) /\ put_uvarint 0 = [0].
+Proof. repeat split. Qed.
+
+Lemma w_readbytes_negative : rd_bytes_z (-1) [1; 2; 3] = OPanic WSliceBounds.
+Proof. reflexivity. Qed.
+
